@@ -1,6 +1,7 @@
 package envenc
 
 import (
+	"math/big"
 	"encoding/binary"
 	"fmt"
 	"math"
@@ -67,6 +68,22 @@ func CInt(v int64) CB {
 	}
 	return head(1, uint64(-1-v))
 }
+// CBigInt writes an integer of any size in its preferred form: a plain integer (major type 0 / 1) while the argument fits in 64 bits
+// (that covers -2^64 .. 2^64-1), a bignum (tag 2 / 3) beyond.
+func CBigInt(x *big.Int) CB {
+	if x.Sign() >= 0 {
+		if x.IsUint64() {
+			return head(0, x.Uint64())
+		}
+		return CTag(2, CBytes(x.Bytes()))
+	}
+	n := new(big.Int).Sub(new(big.Int).Neg(x), big.NewInt(1)) // -1 - x
+	if n.IsUint64() {
+		return head(1, n.Uint64())
+	}
+	return CTag(3, CBytes(n.Bytes()))
+}
+
 func CUintWide(v uint64, width int) CB { return headWidth(0, v, width) }
 func CBytes(b []byte) CB              { return append(head(2, uint64(len(b))), b...) }
 func CText(s string) CB               { return append(head(3, uint64(len(s))), s...) }
@@ -90,6 +107,9 @@ func CMap(kv ...CB) CB {
 	return out
 }
 func CTag(n uint64, item CB) CB { return append(head(6, n), item...) }
+
+// CTagWide writes the tag number with a forced argument width (1, 2, 4 or 8 bytes): a longer-than-shortest head.
+func CTagWide(n uint64, width int, item CB) CB { return append(headWidth(6, n, width), item...) }
 func CBool(b bool) CB {
 	if b {
 		return CB{0xf5}
@@ -171,6 +191,10 @@ func CanonCBOR(v any) (CB, error) {
 		return CText(x), nil
 	case []byte:
 		return CBytes(x), nil
+	case big.Int:
+		return CBigInt(&x), nil
+	case *big.Int:
+		return CBigInt(x), nil
 	case CB:
 		return x, nil
 	case []any:
